@@ -1,10 +1,13 @@
 #!/bin/sh
-# ingest_queue.sh C04 C07 ...  — confirm and file both mutants of each listed property, one after the other (shared scratch worktree/target)
+# ingest_queue.sh [-b BASE] [-l LABELPREFIX] C04 C07 ...  — confirm and file both mutants of each listed property, one after the other
+BASE=/tmp/mut; LP=m
+while getopts b:l: o; do case $o in b) BASE=$OPTARG;; l) LP=$OPTARG;; esac; done
+shift $((OPTIND-1))
 for P in "$@"; do
   for N in 1 2; do
-    if [ -f /tmp/mut/$P/_mutant/m${N}_patch.diff ]; then
-      python3 /verif/tools/ingest_mutant.py /tmp/mut/$P/_mutant $P $N > /tmp/mut/ingest_${P}_${N}.log 2>&1
-      echo "$P m$N: $(grep -E '"verdict"|detected_by_own' /tmp/mut/ingest_${P}_${N}.log | tr -d '\n')"
+    if [ -f $BASE/$P/_mutant/m${N}_patch.diff ]; then
+      python3 /verif/tools/ingest_mutant.py $BASE/$P/_mutant $P $N --label=${LP}${N} > $BASE/ingest_${P}_${N}.log 2>&1
+      echo "$P ${LP}$N: $(grep -E '"verdict"|detected_by_own' $BASE/ingest_${P}_${N}.log | tr -d '\n')"
     fi
   done
 done
